@@ -131,7 +131,7 @@ class RF:
         return self
 
 
-_FLOAT_TYPES = {"numpy.float64", "numpy.float32", "numpy.float_", "numpy.double", "builtins.float", "numpy.longdouble", "numpy.float128"}
+_FLOAT_TYPES = {"numpy.float64", "numpy.float_", "numpy.double", "builtins.float", "numpy.longdouble", "numpy.float128"}
 _BINFUNCS = {"numpy.add": "+", "numpy.subtract": "-", "numpy.multiply": "*", "numpy.divide": "/", "numpy.true_divide": "/"}
 _ELEMENTWISE = {
     "numpy.log": "log", "math.log": "log", "numpy.exp": "exp", "math.exp": "exp", "numpy.floor": "floor",
